@@ -727,6 +727,6 @@ def TRUNC(
     if num_digits == 0:
         return math.trunc(number)
 
-    num_digits = int(num_digits)
-
-    return math.trunc(number * 10**num_digits) / 10**num_digits
+    # Truncating is rounding toward zero - of the decimal representation:
+    # 1.13 * 100 is 112.99999999999999 in binary.
+    return _round(number, num_digits, _rounding=decimal.ROUND_DOWN)
